@@ -32,7 +32,7 @@ REQUIRED = ['evaluations', 'route_groups_checked', 'route:path', 'route:path-upp
             'route:svgz-path', 'route:svgz-kind', 'route:png-data-uri', 'route:svg-data-uri', 'route:svg-inline', 'route:cli-main', 'route:cli-main-upper',
             'route:cli-subprocess', 'cli_terminal_checked', 'sequence_saves_checked', 'unknown_extension_refused',
             'audit_open_events']
-TIMEOUT = {'quick': 900, 'thorough': 7200}
+TIMEOUT = {'quick': 3600, 'thorough': 21600}
 KINDS = ['png', 'svg', 'eps', 'pdf', 'txt', 'ans', 'pbm', 'pam', 'ppm', 'xbm', 'xpm', 'tex']
 TEXT = ('eps', 'xpm', 'xbm', 'txt', 'tex', 'ans')
 COLORS = ['red', 'navy', '#abc', '#123456', 'gold', 'white', 'black', '#0f0', 'steelblue']
@@ -298,8 +298,10 @@ def run_routes(case, rec, tmp, opened):
         if case.get('subprocess'):
             p2 = os.path.join(tmp, 'r11.%s' % kind)
             argv2 = ['--output=%s' % p2] + argv[1:]
-            pr = subprocess.run([sys.executable, '-m', 'segno.cli'] + argv2, capture_output=True, env=core.child_env(), timeout=120)
-            if pr.returncode != 0:
+            pr = core.run_sub([sys.executable, '-m', 'segno.cli'] + argv2, capture_output=True, env=core.child_env())
+            if pr.returncode is None:
+                pass
+            elif pr.returncode != 0:
                 rec.deviation('C12', 'cli-subprocess-failed', {'argv': argv2, 'rc': pr.returncode, 'stderr': pr.stderr[-200:]})
             else:
                 res['cli-subprocess'] = read(p2)
@@ -339,9 +341,9 @@ def run_terminal(case, rec, tmp):
     if rc != 0 or got.getvalue() != exp.getvalue():
         rec.deviation('C12', 'cli-terminal-differs', {'argv': argv, 'rc': rc, 'len': (len(got.getvalue()), len(exp.getvalue()))})
     if case.get('subprocess'):
-        pr = subprocess.run([sys.executable, '-m', 'segno.cli'] + argv, capture_output=True, env=dict(core.child_env(), PYTHONIOENCODING='utf-8'), timeout=120)
+        pr = core.run_sub([sys.executable, '-m', 'segno.cli'] + argv, capture_output=True, env=dict(core.child_env(), PYTHONIOENCODING='utf-8'))
         rec.count('cli_terminal_subprocess')
-        if pr.returncode != 0 or pr.stdout.decode('utf-8') != exp.getvalue():
+        if pr.returncode is not None and (pr.returncode != 0 or pr.stdout.decode('utf-8') != exp.getvalue()):
             rec.deviation('C12', 'cli-terminal-differs', {'argv': argv, 'rc': pr.returncode, 'subprocess': True})
 
 
